@@ -168,6 +168,7 @@ func (p *Parser) ParseReader(r io.Reader, args ...any) (data Node, err error) {
 
 			return
 		}
+		p.noff -= len(buf) - skip
 		skip = 0
 		if eof {
 			break
